@@ -1,4 +1,5 @@
 pub mod c01;
+pub mod c03;
 pub mod c04;
 pub mod c05;
 pub mod c06;
@@ -18,6 +19,11 @@ pub fn property(id: &str) -> Option<PropertyRun> {
             id: id.into(),
             parts: vec![Box::new(Campaign(c01::C01)), Box::new(Campaign(c01::Equilibrium))],
             assumptions: vec!["reference semantics: floor division/modulo defined for positive divisors only (the behaviour tau_star.rs documents)".into(), "finite extents; only definite verdicts of the exact evaluator and of the reference semantics are compared".into()],
+        },
+        "C03" => PropertyRun {
+            id: id.into(),
+            parts: vec![Box::new(Campaign(c03::C03))],
+            assumptions: vec!["exact mode, finite extents; only definite verdicts are compared".into(), "identifiers are chosen so that no symbol clashes with a 0-ary predicate (renaming is C09/C12's subject)".into()],
         },
         "C04" => PropertyRun {
             id: id.into(),
@@ -73,4 +79,4 @@ pub fn property(id: &str) -> Option<PropertyRun> {
     })
 }
 
-pub const ALL: &[&str] = &["C01", "C04", "C05", "C06", "C07", "C08", "C11", "C14", "C15", "C17", "C18"];
+pub const ALL: &[&str] = &["C01", "C03", "C04", "C05", "C06", "C07", "C08", "C11", "C14", "C15", "C17", "C18"];
